@@ -65,7 +65,20 @@ pub fn compile_and_project(tx: &tir::Tx, compiler: &mut tx3_cardano::Compiler) -
     }
 }
 
+thread_local! {
+    // compiler instances that live as long as the driver process, one per configuration: with `shared_compiler` a case is
+    // compiled on an instance that has served every earlier case of the process
+    static SHARED: std::cell::RefCell<std::collections::HashMap<String, tx3_cardano::Compiler>> = std::cell::RefCell::new(Default::default());
+}
+
 pub fn run_one(src: &str, case: &Value) -> Value {
+    if case["shared_compiler"].as_bool().unwrap_or(false) {
+        let key = case["cfg"].to_string();
+        let mut compiler = SHARED.with(|m| m.borrow_mut().remove(&key)).unwrap_or_else(|| ctx::make_compiler(&case["cfg"]));
+        let out = run_one_on(src, case, &mut compiler);
+        SHARED.with(|m| m.borrow_mut().insert(key, compiler));
+        return out;
+    }
     let mut compiler = ctx::make_compiler(&case["cfg"]);
     // a compiler that has served other transactions before: each earlier source is staged with the arguments of the
     // case and compiled on the same instance, its result ignored
